@@ -101,23 +101,46 @@ def scheme_case(spec, res):
             if abs(got - pts[i]) > 1e-5 * scale:
                 v("mapper=table", f"modulator({bits}) = {got:.4f} but the point labelled {bits} in the published table is {pts[i]:.4f}", {"bits": bits})
                 break
+    # alternating schemes send every second symbol from a rotated copy of the constellation: observe that second table through the modulator
+    # (symbol position 1 after a reset) - it must be a rotation of the published one with the same labelling properties
+    tables2 = None
+    if MC.KIND[scheme] == "alternating" and lab is not None and len(lab) == M:
+        try:
+            pts2 = []
+            for l in lab:
+                mod.reset_state()
+                out = mod(torch.tensor([list(lab[0]) + list(l)], dtype=torch.float32))
+                pts2.append(complex(out.reshape(-1)[1]))
+            res.ev(M, nontrivial=M - 1, transitions=M)
+            close2 = [(i, j) for i in range(M) for j in range(i) if abs(pts2[i] - pts2[j]) <= 1e-6 * scale]
+            if close2:
+                v("distinct", f"odd symbol positions: labels {lab[close2[0][0]]} and {lab[close2[0][1]]} are sent as the same point {pts2[close2[0][0]]:.4f}")
+            e2 = sum(abs(c) ** 2 for c in pts2) / M
+            if (prm.get("normalize") or scheme in UNIT_ALWAYS) and abs(e2 - 1) > 1e-5:
+                v("unit-energy", f"odd symbol positions: mean |c|^2 = {e2}")
+            tables2 = pts2
+        except Exception as e:  # noqa: BLE001
+            v("raises", f"observing the alternating constellation: {type(e).__name__}: {str(e)[:160]}")
     # Gray neighbours
     gopt = GRAY_OPT.get(scheme)
     gray = (prm.get(gopt) if gopt in prm else prm.get("gray_coded", True if scheme == "dpsk" else None)) if gopt else (scheme == "dqpsk")
     if gray and lab is not None and len(lab) == M and M > 2 and not close:
-        dm = MC.dmin(pts)
-        npairs = 0
-        for i in range(M):
-            for j in range(i):
-                if abs(pts[i] - pts[j]) <= (1 + 1e-4) * dm:
-                    npairs += 1
-                    hd = sum(x != y for x, y in zip(lab[i], lab[j]))
-                    if hd != 1:
-                        v("gray-neighbours", f"nearest neighbours {pts[i]:.3f} {lab[i]} and {pts[j]:.3f} {lab[j]} differ in {hd} bits", {"i": i, "j": j})
-                        break
-            else:
+        for which, tp in (("", pts), ("odd symbol positions: ", tables2)):
+            if tp is None or len({round(c.real, 6) + 1j * round(c.imag, 6) for c in tp}) != M:
                 continue
-            break
+            dm = MC.dmin(tp)
+            npairs = 0
+            for i in range(M):
+                for j in range(i):
+                    if abs(tp[i] - tp[j]) <= (1 + 1e-4) * dm:
+                        npairs += 1
+                        hd = sum(x != y for x, y in zip(lab[i], lab[j]))
+                        if hd != 1:
+                            v("gray-neighbours", f"{which}nearest neighbours {tp[i]:.3f} {lab[i]} and {tp[j]:.3f} {lab[j]} differ in {hd} bits", {"i": i, "j": j})
+                            break
+                else:
+                    continue
+                break
         res.ev(npairs, nontrivial=npairs, transitions=0)
     res.sample({"scheme": scheme, "cfg": cfg, "points": M, "energy": round(energy, 6), "gray_requested": bool(gray)})
 
